@@ -8,7 +8,7 @@ RULE = ('every parser configuration (IPv6-UDP-CoAP, IPv4-UDP-CoAP, UDP, CoAP, SC
         '0x0000 / 0xFFFF / small values (zero and huge length fields), non byte-aligned lengths, random strings of 0..2400 bits; outcome '
         'class (descriptor / exception type / timeout after 5 s) compared with the extracted Coq model; the oracle accepts only a '
         'descriptor or ParserError; distinct by (stack, bits)')
-ASSUMPTIONS = ['packet buffers are left-padded (default); "promptly" is measured by the harness (5 s limit), the theorem gives termination with an explicit iteration bound']
+ASSUMPTIONS = ['packet buffers are left-padded (default); "promptly" is measured by the harness (20 s of CPU time per call; the largest well-formed inputs need about 2 s), the theorem gives termination with an explicit iteration bound']
 
 
 def run(rep, tier, seed):
